@@ -12,7 +12,9 @@ EXPLANATION = (
     "the helpers' own MIR, not hard-coded) whose operand originates directly from an integer parameter - overflow asserts of `i - 1`, `i + 1`, "
     "`(d-1)*(dim+1)`, Vec indexing by a parameter - is dominated by a still-valid range guard on that parameter (lower bound for "
     "subtraction, some upper bound for addition/multiplication/indexing). Hence no index pair, including |i-j|>1 and i=0, and no chamber number "
-    "can make a query panic through its arguments; out-of-range arguments reach the `None` arm. Sites whose operands come from struct fields "
+    "can make a query panic through its arguments. Out-of-range arguments give None (T4-none-outside-ranges): the branch conditions on every path to a "
+    "`Some(..)` return of op / r / v / m are evaluated for all argument tuples with an index in 0..=4 and a chamber in {0, 1, 5, 6} on a D-set of dimension 3 and size 5; "
+    "for an out-of-range tuple no such path is possible (conditions that are table lookups count as possibly true; `?` on a sibling accessor with out-of-range arguments is not taken). Sites whose operands come from struct fields "
     "(orbit tables) are listed as invariant-justified (axiom A6), not proved. NOT decided: involution, r = orbit length, m = r*v, symmetry, "
     "agreement between representations, orbit/traversal/orientation semantics (value-level) - except their range completeness: the derived queries "
     "(elements, indices, full_traversal, partial_orientation, is_connected, is_complete, is_loopless, is_weakly_oriented, is_oriented, orbit_reps, orbit_reps_2d) "
